@@ -182,6 +182,24 @@ class Check:
         return 1 if self.nviol else 0
 
 
+class SubjectFailure(Exception):
+    """The code under test made a harness or an execution pipeline fail in a way the check has no finer classification for
+    (a container harness dies, the driver explorer returns nothing, emitted IL cannot be translated or compiled).  On the unchanged
+    tree none of these happens, so this is reported as a violation (exit 1), never as an infrastructure error."""
+
+    def __init__(self, key, what, files=None, cmd=None):
+        Exception.__init__(self, what)
+        self.key, self.what, self.files, self.cmd = key, what, files or {}, cmd
+
+
+def abort_with(chk, e):
+    chk.violation(e.key, e.what, files=e.files, cmd=e.cmd)
+    chk.deadline_hit = True      # the run is not exhaustive
+    cov = {'states': 1, 'transitions': 1, 'traces_validated_against_impl': 0, 'evaluations': 1, 'distinct_nontrivial': 2,
+           'rule': 'aborted: the code under test made the harness fail before the exploration finished', 'samples': [{'aborted': e.what[:500]}]}
+    return chk.finish(cov, ['aborted run: coverage figures are placeholders'])
+
+
 def _default(o):
     if isinstance(o, bytes):
         return o.decode('latin-1')
